@@ -3,6 +3,7 @@ package c10
 import (
 	"context"
 	"fmt"
+	"log/slog"
 	"os"
 	"path/filepath"
 	"runtime"
@@ -11,6 +12,10 @@ import (
 	"testing"
 	"time"
 
+	"github.com/cilium/hive"
+	"github.com/cilium/hive/cell"
+	"github.com/cilium/hive/hivetest"
+	"github.com/cilium/hive/job"
 	"github.com/cilium/hive/script"
 	"github.com/cilium/statedb"
 
@@ -358,6 +363,16 @@ func TestVerif_Probes(t *testing.T) {
 		}
 		r.Case(vkit.NewHash().Str("script-commands").Sum(), true)
 	}
+	// statedb.Derive opens a write transaction on the output table for every batch of changes: stopping the job while it is idle or
+	// in the middle of a batch must leave both tables lockable
+	for variant := 0; variant < 4 && r.Violations() < 3; variant++ {
+		key, msg := deriveProbe(t, variant)
+		r.Count("derive_probes", 1)
+		if key != "" {
+			r.Violation(key, variant, map[string]any{"message": msg, "variant": variant})
+		}
+		r.Case(vkit.NewHash().Str("derive").Int(int64(variant)).Sum(), true)
+	}
 	// single goroutine, duplicate tables in any order
 	db := statedb.New()
 	tabs := concw.NewTables(db, "d", 3)
@@ -562,4 +577,85 @@ func TestVerifRace_Stress(t *testing.T) {
 		r.Count("hook:"+p, c)
 	}
 	r.Finish()
+}
+
+// deriveProbe runs a Derive job from table "in" to table "out" in a hive and stops the hive while the job is idle (variant 0), in the
+// middle of a batch (1: first object, 2: second of three), or in the middle of the second batch (3).
+func deriveProbe(t *testing.T, variant int) (key, msg string) {
+	var (
+		db      *statedb.DB
+		in, out statedb.RWTable[*concw.Row]
+		h       *hive.Hive
+		stopped = make(chan struct{})
+		calls   atomic.Int64
+	)
+	log := hivetest.Logger(t, hivetest.LogLevel(slog.LevelError))
+	stopAt := map[int]int64{0: -1, 1: 1, 2: 2, 3: 5}[variant]
+	transform := func(o *concw.Row, deleted bool) (*concw.Row, statedb.DeriveResult) {
+		if calls.Add(1) == stopAt {
+			go func() {
+				h.Stop(log, context.TODO())
+				close(stopped)
+			}()
+			// Stop cancels the job's context and then waits for the job, which is inside this call: give the cancellation time to
+			// happen (if it has not by then, the probe degenerates to a stop between batches, which is also legal)
+			time.Sleep(100 * time.Millisecond)
+		}
+		if deleted {
+			return &concw.Row{ID: o.ID}, statedb.DeriveDelete
+		}
+		return &concw.Row{ID: o.ID, V: o.V + 1000}, statedb.DeriveInsert
+	}
+	h = hive.New(
+		statedb.Cell,
+		job.Cell,
+		cell.Provide(
+			cell.NewSimpleHealth,
+			func(r job.Registry, hl cell.Health) job.Group { return r.NewGroup(hl) },
+		),
+		cell.Module("derive-probe", "derive probe",
+			cell.Provide(func(d *statedb.DB) (statedb.Table[*concw.Row], statedb.RWTable[*concw.Row], error) {
+				db = d
+				ts := concw.NewTables(d, fmt.Sprintf("dp%d-", variant), 2)
+				in, out = ts[0], ts[1]
+				return in, out, nil
+			}),
+			cell.Invoke(statedb.Derive[*concw.Row, *concw.Row]("derive-probe", transform)),
+		),
+	)
+	if err := h.Start(log, context.TODO()); err != nil {
+		return "derive/start", err.Error()
+	}
+	write := func(ids ...string) {
+		w := db.WriteTxn(in)
+		for i, id := range ids {
+			in.Insert(w, &concw.Row{ID: id, V: int64(i)})
+		}
+		w.Commit()
+	}
+	write("a", "b", "c")
+	if variant == 3 {
+		time.Sleep(50 * time.Millisecond)
+		write("d", "e", "f")
+	}
+	if variant == 0 {
+		time.Sleep(50 * time.Millisecond)
+		go func() {
+			h.Stop(log, context.TODO())
+			close(stopped)
+		}()
+	}
+	select {
+	case <-stopped:
+	case <-time.After(20 * time.Second):
+		return "derive/stop-stuck", fmt.Sprintf("variant %d: stopping the hive did not finish (transform calls so far: %d)", variant, calls.Load())
+	}
+	if !within(10*time.Second, func() {
+		w := db.WriteTxn(out, in)
+		out.Insert(w, &concw.Row{ID: "probe"})
+		w.Abort()
+	}) {
+		return "blocked-after-derive-stop", fmt.Sprintf("variant %d: after the Derive job was stopped (transform calls: %d) a WriteTxn over its input and output tables is never granted: the job left its write transaction open", variant, calls.Load())
+	}
+	return "", ""
 }
